@@ -47,6 +47,16 @@ STRENGTH = {
  "C05-B": "same as C05-A: now found as a masked directory that lists its content",
  "C17-A": "first detection was a harness time-out; a per-round watchdog now reports the runs that never return",
  "C17-B": "first caught only by the regenerated source fact; environment life cycles inside the concurrent rounds now expose the foreign socket in other programs",
+ # second round (changes C and D, written after the checks existed, told to avoid the first round's ideas)
+ "C07-C": "missed at first; every failing launch step is now also run with ptrace requested and no filter (the parent must still wait for the exec result)",
+ "C07-D": "missed at first; the callback's pid is now identified through NSpid (container init after exec, the un-exec'd child before)",
+ "C09-D": "missed at first; a run is now cancelled from inside the handler of a child's trapped call once the main process is a zombie, and the verdict must be its exit",
+ "C12-D": "missed at first (every run had its own cancelled context); runs with context.Background() and one shared long-lived context were added",
+ "C14-C": "missed at first (batches were sequential); eight concurrent callers on one environment with per-caller failure patterns were added",
+ "C20-C": "missed at first (targets were single-threaded); half of the AddProc targets now have three threads and every thread is looked up",
+ "C20-D": "missed at first (no nested groups); sub-groups under handles, the kernel's rmdir-fails-on-sub-groups rule in the model, and the oracle that a Destroy never removes another handle's group",
+ "C05-D": "missed at first; new theorem C05_gen_container_failure_is_reported on the regenerated initFileSystem and a real container with an unappliable mask",
+ "C17-D": "missed at first; every ptrace run now opens its own file 120 times and its handler counts scratch paths that are not its own",
 }
 
 out = []
@@ -131,8 +141,10 @@ tail = open(os.path.join(VERIF, "docs/design_tail.md")).read()
 nth = sum(len(theorems(p)) for p in props.PROPS)
 head = head.replace("24 genuine defects of go-sandbox were found; 20 are repaired by `fix:` commits in /repo, 4 are recorded",
                     "%d genuine defects of go-sandbox were found; %d are repaired by `fix:` commits in /repo, %d are recorded" % (len(fixed) + len(opens), len(fixed), len(opens)))
+nseeded = len([d for d in glob.glob(os.path.join(VERIF, "seeded", "C*-*")) if os.path.isdir(d)])
+head = head.replace("* 40 seeded property-breaking changes (two per property, written by sub-agents that saw only the property\n  text)", "* %d seeded property-breaking changes (two per property in a first round, two more for eight properties in a second\n  round after the checks existed; all written by sub-agents that saw only the property text)" % nseeded)
 head = head.replace("all 40 are detected by the check of their property, 9 of them only after the\n  check was strengthened (section 8 says which and how).",
-                    "all 40 are detected by the check of their property; %d were missed by the first version of the check and %d more\n  were first detected without a concrete failing input — section 8 says which, and how the checks were strengthened." % (len(missed), len(STRENGTH) - len(missed)))
+                    "all %d are detected by the check of their property; %d were missed by the version of the check that existed when they\n  were written and %d more were first detected without a concrete failing input — section 8 says which, and how the\n  checks were strengthened (never by telling a check about a particular change)." % (nseeded, len(missed), len(STRENGTH) - len(missed)))
 head = head.replace("* Levels are stated per property", "* %d kernel-checked theorems in the 20 property files.\n* Levels are stated per property" % nth)
 tail = tail.replace("{FIXED_TABLE}", "\n".join(ft)).replace("{OPEN_TABLE}", "\n".join(ot)).replace("{SEEDED_SECTION}", "\n".join(s8)).replace("{HOOKS}", "; ".join(hooks))
 open(os.path.join(VERIF, "DESIGN.md"), "w").write(head + "\n" + section5 + "\n" + tail)
